@@ -53,14 +53,14 @@ var specs = map[string]*propSpec{
 	"C13": {
 		ID: "C13", Engine: "storesim", Level: "fault_enumeration",
 		QuickRuns: 3500, ThoroughRuns: 150000, Chunk: 25, WatchdogS: 400,
-		Rule: "one evaluation = one history (4-18 operations on a composition whose leaves are simulated stores, files over SimVFS, diskpacked over the os shim, with simulated key/value indexes); sub-runs = re-executions of the history from a fresh world with a single fault (every lower-layer call k of every operation j in a seeded window x every applicable kind: error, error-after-effect, short read, short write, iterator error), each followed by a healthy suffix, a closing sweep, new receives/removes, the store's own recovery procedure (diskpacked.Reindex, blobpacked fast recovery, encrypt meta re-scan over wiped indexes) and a second sweep; non-trivial = at least one single-fault sub-run; distinct = distinct (composition, op kinds, faulted call sites). Whole enumerations also run through blobserver.EnumerateAll with a slow callback (no callback call may begin after the helper returned, error or not); blobpacked compositions receive a packable file inside the fault window; a read that reports success under a fault must be complete",
+		Rule: "one evaluation = one history (4-18 operations on a composition whose leaves are simulated stores, files over SimVFS, diskpacked over the os shim, with simulated key/value indexes); sub-runs = re-executions of the history from a fresh world with a single fault (every lower-layer call k of every operation j in a seeded window x every applicable kind: error, error-after-effect, short read, short write, iterator error), each followed by a healthy suffix, a closing sweep, new receives/removes, the store's own recovery procedure (diskpacked.Reindex, blobpacked fast recovery, encrypt meta re-scan over wiped indexes) and a second sweep; non-trivial = at least one single-fault sub-run; distinct = distinct (composition, op kinds, faulted call sites). Whole enumerations also run through blobserver.EnumerateAll with a slow callback (no callback call may begin after the helper returned, error or not); blobpacked compositions receive a packable file inside the fault window; a read that reports success under a fault must be complete. Half of the files stores carry a new-file gate of width 1-2 (as localdisk gives them); a packable file spans several zips in half of the runs that have one; after the recovery from the zips the packed store's own start-up integrity check must pass",
 		Real: []string{"pkg/blobserver/{files,diskpacked,blobpacked,encrypt,replica,shard,cond,overlay,namespace,proxycache}", "pkg/blobserver (StatBlobsParallelHelper, MergedEnumerate, Receive)"},
 		Stub: []string{"SimStore", "SimKV", "SimVFS", "os shim + simdisk (scratch directory)"},
 	},
 	"C03": {
 		ID: "C03", Engine: "storesim", Level: "fault_enumeration",
 		QuickRuns: 3000, ThoroughRuns: 120000, Chunk: 1, WatchdogS: 400,
-		Rule: "one evaluation = one receive/remove history on the file-per-blob store (over SimVFS) or the packed disk store (over the os shim with a simulated index) with a designated crash operation; sub-runs = crash images checked: for every lower-layer call c of the crash operation (and the instant right after it returned) the process dies before call c+1, and every crash image is materialised (process death = page cache kept; power loss = synced content + each parser-relevant prefix of appended bytes x each subset of in-place overwrites; for files each un-synced file cut at synced/middle/all), reopened, swept, re-indexed from the pack files alone, driven through a suffix of further operations, swept and re-indexed again; distinct = distinct (store, maxFileSize, op kinds, crash op, call count). One history in eight runs on localdisk over the real osfs.go with a contract-checking VFS in between (RecVFS: a Sync, Close, Rename or MkdirAll that returns without having done its part fails the call) and ends with a clean reopen and sweep",
+		Rule: "one evaluation = one receive/remove history on the file-per-blob store (over SimVFS) or the packed disk store (over the os shim with a simulated index) with a designated crash operation; sub-runs = crash images checked: for every lower-layer call c of the crash operation (and the instant right after it returned) the process dies before call c+1, and every crash image is materialised (process death = page cache kept; power loss = synced content + each parser-relevant prefix of appended bytes x each subset of in-place overwrites; for files each un-synced file cut at synced/middle/all), reopened, swept, re-indexed from the pack files alone, driven through a suffix of further operations, swept and re-indexed again; distinct = distinct (store, maxFileSize, op kinds, crash op, call count). One history in eight runs on localdisk over the real osfs.go with a contract-checking VFS in between (RecVFS: a Sync, Close, Rename or MkdirAll that returns without having done its part fails the call) and ends with a clean reopen and sweep. One run in 60 is a bulk removal: 66-140 tiny blobs on the packed disk store and one RemoveBlobs call over nearly all of them as the crash operation (crash points sampled with a stride of 9-17, plus the last four)",
 		Real: []string{"pkg/blobserver/files", "pkg/blobserver/diskpacked (incl. Reindex, StreamBlobs, delete)"},
 		Stub: []string{"SimVFS (files.VFS)", "os/syscall shim + simdisk crash materialisation", "SimKV index (assumed crash-atomic and durable per call)"},
 	},
